@@ -1433,6 +1433,9 @@ int64_t ExpressionEvaluator::evaluate_function_call_impl(const ASTNode *node) {
     // v0.11.0: ジェネリック関数のインスタンス化（キャッシュ付き）
     std::unique_ptr<ASTNode> instantiated_func;
     const ASTNode *cached_func = nullptr;
+    // static ローカル変数の名前空間（"counter<int>"）。インスタンスごとに
+    // 別の static を持たせる。ジェネリックでない呼び出しでは空のまま
+    std::string callee_static_namespace;
 
     // デバッグ: 条件を表示
     if (interpreter_.is_debug_mode()) {
@@ -1512,6 +1515,7 @@ int64_t ExpressionEvaluator::evaluate_function_call_impl(const ASTNode *node) {
                     GenericInstantiation::instantiate_generic_function(
                         func, node->type_arguments);
                 func = instantiated_func.get();
+                callee_static_namespace = cache_key;
 
                 // FIX v0.11.0: キャッシュへの保存を無効化
                 // 理由: キャッシュからの取得を無効化しているため、保存も不要
@@ -4743,6 +4747,8 @@ int64_t ExpressionEvaluator::evaluate_function_call_impl(const ASTNode *node) {
     // 現在の関数名を設定
     std::string prev_function_name = interpreter_.current_function_name;
     interpreter_.current_function_name = node->name;
+    std::string prev_static_namespace = interpreter_.current_static_namespace;
+    interpreter_.current_static_namespace = callee_static_namespace;
 
     debug_msg(DebugMsgId::METHOD_CALL_EXECUTE, node->name.c_str());
 
@@ -4886,6 +4892,7 @@ int64_t ExpressionEvaluator::evaluate_function_call_impl(const ASTNode *node) {
             splice_map_entries(top.function_pointers,
                                callee_frame.function_pointers);
             interpreter_.current_function_name = prev_function_name;
+            interpreter_.current_static_namespace = prev_static_namespace;
             callee_frame_parked = true;
         };
         auto restore_callee_frame = [&]() {
@@ -4901,6 +4908,7 @@ int64_t ExpressionEvaluator::evaluate_function_call_impl(const ASTNode *node) {
             top.functions.swap(callee_frame.functions);
             top.function_pointers.swap(callee_frame.function_pointers);
             interpreter_.current_function_name = node->name;
+            interpreter_.current_static_namespace = callee_static_namespace;
             callee_frame_parked = false;
         };
         // From here on name lookups happen inside the callee: its static
@@ -6697,6 +6705,7 @@ int64_t ExpressionEvaluator::evaluate_function_call_impl(const ASTNode *node) {
             interpreter_.pop_scope();
             method_scope_active = false;
             interpreter_.current_function_name = prev_function_name;
+            interpreter_.current_static_namespace = prev_static_namespace;
             return 0;
         } catch (const ReturnException &ret) {
             // v0.11.0: 型コンテキストをクリア（例外時）
@@ -6731,6 +6740,7 @@ int64_t ExpressionEvaluator::evaluate_function_call_impl(const ASTNode *node) {
                         method_scope_active = false;
                     }
                     interpreter_.current_function_name = prev_function_name;
+                    interpreter_.current_static_namespace = prev_static_namespace;
                     throw ret; // Futureを返して終了
                 }
 
@@ -6743,6 +6753,7 @@ int64_t ExpressionEvaluator::evaluate_function_call_impl(const ASTNode *node) {
                     method_scope_active = false;
                 }
                 interpreter_.current_function_name = prev_function_name;
+                interpreter_.current_static_namespace = prev_static_namespace;
 
                 // Future<T>構造体を作成
                 Variable future_var;
@@ -7011,6 +7022,7 @@ int64_t ExpressionEvaluator::evaluate_function_call_impl(const ASTNode *node) {
             interpreter_.pop_scope();
             method_scope_active = false;
             interpreter_.current_function_name = prev_function_name;
+            interpreter_.current_static_namespace = prev_static_namespace;
 
             // 関数ポインタ戻り値の場合は例外を再度投げる
             if (ret.is_function_pointer) {
@@ -7145,6 +7157,7 @@ int64_t ExpressionEvaluator::evaluate_function_call_impl(const ASTNode *node) {
             method_scope_active = false;
         }
         interpreter_.current_function_name = prev_function_name;
+        interpreter_.current_static_namespace = prev_static_namespace;
 
         // v0.12.0: async関数の場合、ReturnExceptionをFutureに変換
         // ただし、すでにFutureである場合はスキップ（二重変換を防ぐ）
@@ -7257,6 +7270,7 @@ int64_t ExpressionEvaluator::evaluate_function_call_impl(const ASTNode *node) {
             method_scope_active = false;
         }
         interpreter_.current_function_name = prev_function_name;
+        interpreter_.current_static_namespace = prev_static_namespace;
         throw;
     }
 }
